@@ -15,11 +15,17 @@ func init() {
 		func(t *vcTrial) { vcRunC18(t, []int{1}, 64, false) },
 		func(t *vcTrial) { vcRunC18(t, []int{4, 2, 7, 1}, 32, true) },
 		func(t *vcTrial) { vcRunC18(t, []int{16, 3}, 256, false) },
+		vcRunC18GrowthFails,
+		vcRunC18GrowthFails,
 	}
 }
 
 func vcScenC18(t *vcTrial) {
 	r := t.R
+	if r.intn(12) == 0 {
+		vcRunC18GrowthFails(t)
+		return
+	}
 	n := r.rng(1, 4)
 	ks := make([]int, n)
 	for i := range ks {
@@ -308,4 +314,142 @@ func vc18Counts(m map[Poll]int) []int {
 		out = append(out, c)
 	}
 	return out
+}
+
+// vcRunC18GrowthFails: the pool is running with k0 loops, the configured count is raised, and
+// opening one of the additional pollers fails (EMFILE/ENFILE/ENOMEM from epoll_create, or the
+// registration of its wake-up descriptor fails). Pick has no error to return: it must still hand
+// out a poller whose loop is running - the pool that was running is there. With the fault gone, a
+// new SetNumLoops brings the pool to exactly the configured size.
+func vcRunC18GrowthFails(t *vcTrial) {
+	r := t.R
+	k0 := r.rng(1, 4)
+	k1 := k0 + r.rng(1, 5)
+	t.P("variant", "growth of the running pool fails half-way")
+	t.P("from", k0)
+	t.P("to", k1)
+	mark := vcTraceMark()
+	audit := vcStartAudit()
+	m := newManager(k0)
+	defer func() {
+		func() {
+			defer func() { recover() }()
+			m.Close()
+		}()
+		// the loops exit and close their descriptors on their own goroutines: wait for that, the next
+		// trial's ledger must not see this trial's closes
+		for dl := time.Now().Add(5 * time.Second); time.Now().Before(dl); {
+			adopt, closed := map[uintptr]int{}, map[uintptr]int{}
+			audit.mu.Lock()
+			for _, e := range audit.fds {
+				if e.Kind == vfdEpoll || e.Kind == vfdEventfd {
+					adopt[e.Owner]++
+				}
+				if e.Kind == -vfdEpoll || e.Kind == -vfdEventfd {
+					closed[e.Owner]++
+				}
+			}
+			audit.mu.Unlock()
+			balanced := true
+			for o, n := range adopt {
+				if closed[o] < n {
+					balanced = false
+				}
+			}
+			if balanced {
+				break
+			}
+			time.Sleep(200 * time.Microsecond)
+		}
+	}()
+	for i := 0; i < 2*k0; i++ {
+		if p := m.Pick(); p == nil {
+			t.Violate("C18", "nil_poller", "Pick returned nil on a fresh pool of %d", k0)
+			return
+		}
+	}
+	old := append([]Poll(nil), m.polls...)
+	site := []int{vfltEpollCreate, vfltEpollCreate, vfltEpollCtlAdd}[r.intn(3)]
+	es := vcErrnoBy[site]
+	ru := &vcFaultRule{Site: site, Errno: es[r.intn(len(es))], FD: -1, Skip: int64(r.intn(k1 - k0)), Count: 1}
+	t.P("fault", fmt.Sprintf("%s #%d fails with %v", vcFaultSiteNames[site], ru.Skip+1, ru.Errno))
+	fp := &vcFaultPlan{Seed: r.next(), Rules: []*vcFaultRule{ru}}
+	if err := m.SetNumLoops(k1); err != nil {
+		t.Violate("C18", "setnumloops", "SetNumLoops(%d) = %v", k1, err)
+		return
+	}
+	vcSetFaults(fp)
+	var picked []Poll
+	var pan interface{}
+	func() {
+		defer func() { pan = recover() }()
+		for i := 0; i < 2*k1; i++ {
+			picked = append(picked, m.Pick())
+		}
+	}()
+	vcSetFaults(nil)
+	if fp.Fired() == 0 {
+		t.Inconclusive("the fault did not fire")
+		return
+	}
+	t.Stat("pool_growths_failed", 1)
+	if pan != nil {
+		oldExited := 0
+		for _, p := range old {
+			if vcWaitPoint(mark, vpPollExit, vcObjID(p.(*defaultPoll)), 200*time.Millisecond) {
+				oldExited++
+			}
+		}
+		t.Violate("C18", "pick_panics", "the pool was running with %d loops; SetNumLoops(%d), then %s; Pick #%d after that panicked: %v (%d of the %d loops that were running have exited)", k0, k1, t.Param["fault"], len(picked)+1, pan, oldExited, len(old))
+		return
+	}
+	seen := map[Poll]bool{}
+	for i, p := range picked {
+		if p == nil {
+			t.Violate("C18", "nil_poller", "after a failed growth from %d to %d loops Pick #%d returned nil", k0, k1, i+1)
+			return
+		}
+		seen[p] = true
+	}
+	for p := range seen {
+		if err := vcProbePoll(p, 5*time.Second); err != nil {
+			exited := vcSeenSince(mark, vpPollExit, vcObjID(p))
+			if !exited {
+				if err2 := vcProbePoll(p, time.Minute); err2 == nil {
+					continue
+				}
+			}
+			if vcRunnerProgress(5, 5*time.Second) {
+				t.Violate("C18", "dead_poller", "after a failed growth from %d to %d loops (%s) Pick handed out a poller that is not running (its loop's exit is in the trace: %v): %v", k0, k1, t.Param["fault"], exited, err)
+			} else {
+				t.Inconclusive("probe failed and the canary made no progress")
+			}
+			return
+		}
+	}
+	// the fault is gone: configuring again brings the pool to exactly that size
+	if err := m.SetNumLoops(k1); err != nil {
+		t.Violate("C18", "setnumloops", "SetNumLoops(%d) = %v", k1, err)
+		return
+	}
+	counts := map[Poll]int{}
+	for i := 0; i < 4*k1; i++ {
+		p := m.Pick()
+		if p == nil {
+			t.Violate("C18", "nil_poller", "Pick returned nil after the pool was configured again")
+			return
+		}
+		counts[p]++
+	}
+	if len(m.polls) != k1 || len(counts) != k1 {
+		t.Violate("C18", "pool_size", "after a failed growth and a new SetNumLoops(%d) without faults the pool holds %d pollers and %d distinct ones were handed out in %d round-robin picks", k1, len(m.polls), len(counts), 4*k1)
+		return
+	}
+	for p := range counts {
+		if err := vcProbePoll(p, time.Minute); err != nil {
+			t.Violate("C18", "dead_poller", "after the pool was configured again Pick handed out a poller that is not running: %v", err)
+			return
+		}
+	}
+	t.Nontrivial, t.Sig = true, fmt.Sprintf("growth-fails|%s", vcFaultSiteNames[site])
 }
